@@ -135,9 +135,14 @@ func (e *SpecEnv) readsArgs(sf *SpecFn, n *SpecEnv) (sorts, terms []string) {
 // arguments; the arguments pre-exist, every pre-existing cell holds what it held at entry, and a cell of the entry heap only
 // points to pre-existing objects (heap closure), so by induction everything F reaches pre-exists and is unchanged: objects
 // allocated since entry cannot influence it. Not emitted under a quantifier (the arguments are not ground there).
-// flat (optional): the argument terms as they are passed to the function symbol when they differ from args (slice parameters of
-// an `uninterp` are flattened to (block content, offset, length), ext_c34.go); the pointer premises still come from args.
-func (e *SpecEnv) readsFrame(name, retSort string, heapSorts, cur []string, entTerms func(ent *SpecEnv) []string, argSorts []string, args []SV, flat ...[]string) {
+func (e *SpecEnv) readsFrame(name, retSort string, heapSorts, cur []string, entTerms func(ent *SpecEnv) []string, argSorts []string, args []SV) {
+	e.readsFrameArgs(name, retSort, heapSorts, cur, entTerms, argSorts, args, nil)
+}
+
+// readsFrameArgs: as readsFrame; argTerms (if not nil) renders the actual arguments in a given state (an uninterpreted spec
+// function receives a slice of leaf elements as (block content, offset, length), see uninterpArg: the block content is read
+// from the state). Rendered arguments that differ between the two states become premises `cur == entry` of the implication.
+func (e *SpecEnv) readsFrameArgs(name, retSort string, heapSorts, cur []string, entTerms func(ent *SpecEnv) []string, argSorts []string, args []SV, argTerms func(env *SpecEnv) []string) {
 	fc := e.fc
 	if e.inQuant > 0 || !fc.usesFact("readsframe") {
 		return
@@ -162,12 +167,26 @@ func (e *SpecEnv) readsFrame(name, retSort string, heapSorts, cur []string, entT
 			prem = append(prem, eq(cur[i], ent[i]))
 		}
 	}
+	var ats, ets []string
+	if argTerms != nil {
+		ats, ets = argTerms(e), argTerms(&entEnv)
+		if len(ats) != len(ets) || len(ats) != len(argSorts) {
+			return
+		}
+		for i := range ats {
+			if ats[i] != ets[i] {
+				same = false
+				prem = append(prem, eq(ats[i], ets[i]))
+			}
+		}
+	}
 	if same {
 		return
 	}
-	var ats []string
 	for _, a := range args {
-		ats = append(ats, a.t)
+		if argTerms == nil {
+			ats, ets = append(ats, a.t), append(ets, a.t)
+		}
 		switch fc.tc.sortOfSV(a) {
 		case "Ptr":
 			prem = append(prem, app("<", app("root", a.t), w0))
@@ -177,11 +196,8 @@ func (e *SpecEnv) readsFrame(name, retSort string, heapSorts, cur []string, entT
 			prem = append(prem, app("<", app("root", app("iptr", a.t)), w0))
 		}
 	}
-	if len(flat) == 1 && len(flat[0]) == len(argSorts) {
-		ats = flat[0]
-	}
 	fc.eng.declareUF(fc, name, append(append([]string{}, heapSorts...), argSorts...), retSort)
-	fc.assume("true", implies(and(prem...), eq(app(name, append(append([]string{}, cur...), ats...)...), app(name, append(append([]string{}, ent...), ats...)...))))
+	fc.assume("true", implies(and(prem...), eq(app(name, append(append([]string{}, cur...), ats...)...), app(name, append(append([]string{}, ent...), ets...)...))))
 	fc.assumes["frame rule for heap-reading spec functions (uses readsframe): objects allocated after entry do not influence "+name] = true
 }
 
@@ -338,7 +354,7 @@ func (fr *Frame) mapRangeSafe(li *loopInfo, mt *types.Map) (bool, string) {
 				}
 				if spec := eng.contracts.Funcs[key]; spec != nil && (spec.HasMod || spec.Trusted || spec.Assume) {
 					for _, m := range spec.Modifies {
-						if m.All || m.Contents {
+						if m.All || (m.Contents && !m.DelOnly) { // m[-] (ext_c24.go): the callee only deletes entries
 							return false, "call to " + key + " (modifies " + m.Text + ")"
 						}
 					}
@@ -484,11 +500,25 @@ func (e *SpecEnv) visitedBuiltin(x *ECall) SV {
 	if fr == nil || fr.curVisLoop == nil {
 		e.fail("visited(k) is only meaningful in an invariant of a map range loop")
 	}
-	_, r, mt := loopMapRange(fr.curVisLoop)
+	vli := fr.curVisLoop
+	if _, r0, _ := loopMapRange(vli); r0 == nil {
+		// a loop nested in a map range loop: visited(k) is the visited set of the innermost enclosing map range. Its `next` runs
+		// in the enclosing header, so inside the body (and in the nested loop) the key being processed is already in the set.
+		var best *loopInfo
+		for _, o := range fr.loops {
+			if _, ro, _ := loopMapRange(o); o != vli && ro != nil && o.body[vli.header] && (best == nil || len(o.body) < len(best.body)) {
+				best = o
+			}
+		}
+		if best != nil {
+			vli = best
+		}
+	}
+	_, r, mt := loopMapRange(vli)
 	if r == nil {
 		e.fail("visited(k): loop %d does not range over a map", fr.curVisLoop.ordinal)
 	}
-	if ok, why := fr.mapRangeSafe(fr.curVisLoop, mt); !ok {
+	if ok, why := fr.mapRangeSafe(vli, mt); !ok {
 		e.fail("visited(k): the visited-set model is switched off for this loop (%s)", why)
 	}
 	if len(x.Args) != 1 {
@@ -783,6 +813,18 @@ func (fr *Frame) appendStructElems(s, more SV, hasMore bool, res, newLen string,
 		}
 		fc.emit(fmt.Sprintf("(assert (forall ((p Ptr)) (! (= (select %s p) (ite %s (ite (< %s %s) %s %s) (select %s p))) :pattern ((select %s p)))))",
 			h, inWin, rel, slen(s.t), oldv, newv, prev, h))
+		// the same facts indexed by the element number j (consequences of the axiom above, stated in the shape `x[j].f` has in
+		// invariants so that they are found by matching instead of arithmetic): old elements are kept, the appended ones follow
+		at := func(comp, arr, off, j string) string {
+			return fmt.Sprintf("(select %s (Fld (Elem %s %s) %s))", comp, arr, idx(off, j), fk)
+		}
+		fc.emit(fmt.Sprintf("(assert (forall ((j Int)) (! (=> (and (<= 0 j) (< j %s)) (= %s %s)) :pattern (%s))))",
+			slen(s.t), at(h, sarr(res), soff(res), "j"), at(prev, sarr(s.t), soff(s.t), "j"), at(h, sarr(res), soff(res), "j")))
+		if hasMore {
+			fc.emit(fmt.Sprintf("(assert (forall ((k Int)) (! (=> (and (<= 0 k) (< k %s)) (= %s %s)) :pattern (%s))))",
+				slen(more.t), at(h, sarr(res), soff(res), "(+ "+slen(s.t)+" k)"), at(prev, sarr(more.t), soff(more.t), "k"), at(h, sarr(res), soff(res), "(+ "+slen(s.t)+" k)")))
+			fc.emit(fmt.Sprintf("(assert (=> (= %s 1) (= %s %s)))", slen(more.t), at(h, sarr(res), soff(res), slen(s.t)), at(prev, sarr(more.t), soff(more.t), "0")))
+		}
 		fc.noteWrite(ck)
 		st.heap[ck] = h
 	}
